@@ -458,8 +458,8 @@ def c04(ck):
     if not r.cases:
         raise ToolError("MCPrintParse emitted no cases")
     table = write_cases(ck, r.cases, "ppcases.ndjson")
-    # TLC -> Go: the model's messages built with the real factories, printed and parsed back (quick: every 8th)
-    ev = ck.trace("replay", "pp-replay", ["-in", table, "-n", q(ck, 8, 4)], "TraceSml", "TraceSml.cfg", ["InvC04", "InvC04x"], agree=["InvAgreeC04"],
+    # TLC -> Go: the model's messages built with the real factories, printed and parsed back (quick: every 8th, thorough: every 16th of a fifteen times larger scope)
+    ev = ck.trace("replay", "pp-replay", ["-in", table, "-n", q(ck, 8, 16)], "TraceSml", "TraceSml.cfg", ["InvC04", "InvC04x"], agree=["InvAgreeC04"],
                   nontrivial=lambda e: e.get("orig", {}).get("item", {}).get("f") != "none", key=SML_KEY)
     ck.replayed += len(ev)
     if ck.violations:
